@@ -42,6 +42,7 @@ func main() {
 	r := rand.New(rand.NewSource(*seed))
 	n, nev, nfr, nfifo := 0, 0, 0, 0
 	var sess *sshdvec.FifoSession
+	lastPid := ""
 	var stream *sshdvec.Stream
 	if *streamOn {
 		stream = &sshdvec.Stream{}
@@ -71,8 +72,17 @@ func main() {
 			if k%2 == 1 {
 				keep = prev
 			}
-			rec := sshdvec.Run(&v, r, n, k, *framed, fp, *fifoDir, stream, keep)
+			// a quarter of the records carry the PID of the record before them (whatever its form)
+			reuse := ""
+			if r.Intn(4) == 0 {
+				reuse = lastPid
+			}
+			rec := sshdvec.Run(&v, r, n, k, *framed, fp, *fifoDir, stream, keep, reuse)
 			prev = rec.Subst
+			lastPid = ""
+			if rec.PidInt > 0 && v.PidTok == "" {
+				lastPid = rec.Pid
+			}
 			if rec.Fifo != nil {
 				nfifo++
 			}
